@@ -125,7 +125,7 @@ func init() {
 		Level: "other",
 		Run:   checkC11,
 		Explanation: "Decides the structural part of C11, not the timing: (R1) the duration handed to the grace timer is, as a guarded expression over the configuration, DGP if DGP != 0 else max(3*HeartbeatInterval, 5s); " +
-			"(R2) the disconnect handler arms the timer only while the claim stands, under the handler's mutex, after stopping the previous timer; (R3) the timer callback cannot reach a demotion on the edge where the monitor's status is not DISCONNECTED, and demotes only under a standing claim; " +
+			"(R2) the disconnect handler arms the timer only while the claim stands, under the handler's mutex, after stopping the previous timer; (R3) the timer callback acts only for the arming that started it: it compares, under the handler mutex, an arming counter captured when it was armed with the current one and cannot reach a demotion when they differ; the counter is advanced by every arming and by every stop of the timer (reconnect notification, Stop), so the demotion depends on the notifications alone; " +
 			"(R4) the reconnect handler stops the timer and, under a standing claim, starts a WaitGroup-tracked verification every path of which either demotes or is dominated by a successful Get and a (true, nil) verdict of the token validation; " +
 			"(R5) over the whole library: no mutex is acquired while it may already be held, the lock-order graph is acyclic, and no user callback is invoked with a library mutex held (interprocedural may-lockset analysis).",
 		NotDecided: []string{"that the demotion happens at the very moment the grace period elapses (runtime timer behaviour)", "the result of the fresh read itself (store behaviour); keeps-leadership-iff is reduced to C04-R1 for the validation function"},
@@ -133,7 +133,7 @@ func init() {
 		Rules: map[string]string{
 			"R1": "the duration argument of time.AfterFunc in the disconnect handler equals select(DGP==0 ? max(3*H, 5s) : DGP) over cfg.DisconnectGracePeriod / cfg.HeartbeatInterval",
 			"R2": "time.AfterFunc is called under claim==true and under the handler mutex; the previous timer is stopped before; the new timer is stored in the handler",
-			"R3": "from the edge status != DISCONNECTED of the timer callback no demotion is reachable; a demotion is reachable from the callback (whether the claim still stands is decided under the lock by the demotion wrapper, C08)",
+			"R3": "timer callback: an If on (captured G == current handler field G), the captured value tracing to a load of G in the arming function; the comparison has the handler mutex in its must-lockset; no may-demote call reachable from the differs edge; a demotion is reachable from the callback; G = G+1 dominates time.AfterFunc in the arming function and occurs in every function that calls Stop on the timer field",
 			"R4": "the reconnect root stops the grace timer; under claim==true it spawns a tracked verification; in the verification every return is preceded by a demotion or dominated by Get err==nil, validate err==nil and verdict true",
 			"R5": "no self-relock; lock graph acyclic; no OnDemote/OnPromote invocation with a library mutex in the may-lockset",
 		},
@@ -229,48 +229,106 @@ func checkC11(c *Ctx) {
 			c.undecided("R3", "timer callback of "+fn, s.call, "callback argument of time.AfterFunc is not a closure or function: %s", m.Sym.Of(s.call.Call.Args[1]))
 			continue
 		}
-		nStatus, nDemote := 0, 0
+		// The callback acts only for the arming that started it: a value captured at arming time
+		// (a load of a handler field G made under the handler mutex, after G was advanced) is
+		// compared in the callback with the current G; from the "differs" edge no demotion is
+		// reachable. G is advanced by the arming function and by every function that stops the
+		// timer (reconnect, Stop). A test of the monitor's status does not do: other events
+		// overwrite the status (a verification that succeeds after a newer disconnect, a closed
+		// connection), and Timer.Stop cannot recall a callback that has already fired.
+		nGen, nDemote := 0, 0
+		genField := ""
+		isDemoteCall := func(x ssa.Instruction) bool {
+			ci, ok := x.(*ssa.Call)
+			if !ok {
+				return false
+			}
+			callee := ci.Common().StaticCallee()
+			return callee != nil && m.isLib(callee) && m.mayDemote(callee, specFor(ci, callee), 0)
+		}
 		for _, g := range sortedFns(m.staticReach(cbRoots[0], false)) {
 			eachInstr(g, func(in ssa.Instruction) {
-				// demotion sites (whether the claim still stands is decided inside the
-				// demotion wrapper, under the lock: C08-R2/R3)
-				if ci, ok := in.(ssa.CallInstruction); ok {
-					if _, isGo := in.(*ssa.Go); !isGo {
-						if callee := ci.Common().StaticCallee(); callee != nil && m.isLib(callee) && m.mayDemote(callee, specFor(ci, callee), 0) {
-							nDemote++
-						}
-					}
+				if isDemoteCall(in) {
+					nDemote++
 				}
-				// status test
-				if ifi, ok := in.(*ssa.If); ok {
-					l := m.litOf(ifi.Cond, true, ifi)
-					if symMentions(l.S, "ConnectionMonitor.Status(") {
-						nStatus++
-						// which edge means "status == DISCONNECTED"?
-						isEq := l.S.Op == "bin" && l.S.Name == "==" && (l.S.Args[0].String() == "1" || l.S.Args[1].String() == "1")
-						if !isEq {
-							c.undecided("R3", "status test in "+shortFn(g), in, "status comparison %s is not an equality with ConnectionStatusDisconnected (=1)", l)
-							return
-						}
-						notDiscEdge := 1 // false edge of (status == 1)
-						if !l.Truth {
-							notDiscEdge = 0
-						}
-						bad := reachableFromEdge(in.Block(), notDiscEdge, func(x ssa.Instruction) bool {
-							ci, ok := x.(*ssa.Call)
-							if !ok {
-								return false
-							}
-							callee := ci.Common().StaticCallee()
-							return callee != nil && m.isLib(callee) && m.mayDemote(callee, specFor(ci, callee), 0)
-						})
-						c.check(!bad, "R3", "no demotion when reconnected in "+shortFn(g), in, "demotion reachable from the status != DISCONNECTED edge: %v", bad)
+				ifi, ok := in.(*ssa.If)
+				if !ok {
+					return
+				}
+				// the condition may be computed under the mutex and tested after unlocking
+				cond := m.traceValue(ifi.Cond)
+				l := m.litOf(cond, true, ifi)
+				if l.S.Op != "bin" || l.S.Name != "==" || len(l.S.Args) != 2 {
+					return
+				}
+				for i := 0; i < 2; i++ {
+					cur, captured := l.S.Args[i], l.S.Args[1-i]
+					if cur.Op != "path" || cur.V == nil || captured.V == nil {
+						continue
+					}
+					// captured: traces back to a load of the same field in the arming function
+					tv := m.traceValue(captured.V)
+					ts := m.Sym.Of(tv)
+					if ts.Op != "path" || ts.Name != cur.Name {
+						continue
+					}
+					if in2, ok := tv.(ssa.Instruction); !ok || in2.Parent() != s.fn {
+						continue
+					}
+					nGen++
+					genField = cur.Name
+					differsEdge := 1
+					if !l.Truth {
+						differsEdge = 0
+					}
+					bad := reachableFromEdge(in.Block(), differsEdge, isDemoteCall)
+					c.check(!bad, "R3", "no demotion by a superseded or cancelled timer in "+shortFn(g), in, "demotion reachable from the edge where the captured %s differs from the current one: %v", cur.Name, bad)
+					// the comparison is made under the handler mutex
+					if ci, ok := cond.(ssa.Instruction); ok {
+						locks := la.MustBefore(ci)
+						c.check(len(locks) > 0, "R3", "generation compared under the handler mutex in "+shortFn(g), ci, "must-lockset %s", locks)
 					}
 				}
 			})
 		}
-		if nStatus == 0 {
-			c.viol("R3", "status test in timer callback of "+fn, s.call, "the timer callback never compares the connection monitor's status with DISCONNECTED: a reconnect that raced with the timer still demotes")
+		if nGen == 0 {
+			c.viol("R3", "generation test in timer callback of "+fn, s.call,
+				"the timer callback does not compare a value captured when the timer was armed with the handler's current arming counter: it cannot tell whether a reconnect or a newer disconnect notification arrived since (the monitor's status is overwritten by other events, and Timer.Stop does not recall a callback that has already fired), so it demotes too early, or not at all")
+		} else {
+			// advanced in the arming function before AfterFunc, and wherever the timer is stopped
+			advances := func(f *ssa.Function) ssa.Instruction {
+				var at ssa.Instruction
+				eachInstr(f, func(in ssa.Instruction) {
+					if st, ok := in.(*ssa.Store); ok {
+						if a := m.Sym.Of(st.Addr); a.Op == "addr" && a.Name == genField {
+							if v := m.Sym.Of(st.Val); v.Op == "bin" && v.Name == "+" && symMentions(v, genField) {
+								at = in
+							}
+						}
+					}
+				})
+				return at
+			}
+			adv := advances(s.fn)
+			c.check(adv != nil && dominatesInstr(adv, s.call), "R3", "arming advances the generation in "+fn, s.call, "%s is incremented before time.AfterFunc: %v", genField, adv != nil && dominatesInstr(adv, s.call))
+			for _, f := range m.Funcs {
+				if f == s.fn {
+					continue
+				}
+				var stopCall ssa.Instruction
+				eachInstr(f, func(in ssa.Instruction) {
+					if call, ok := isCallTo(valueOf(in), "(*time.Timer).Stop"); ok && timerField != "" {
+						if a := m.Sym.Of(call.Call.Args[0]); a.Op == "path" && a.Name == timerField {
+							stopCall = in
+						}
+					}
+				})
+				if stopCall == nil {
+					continue
+				}
+				adv := advances(f)
+				c.check(adv != nil, "R3", "stopping the timer advances the generation in "+shortFn(f), stopCall, "%s is incremented in the function that stops %s: %v (a callback that has already fired is not recalled by Timer.Stop)", genField, timerField, adv != nil)
+			}
 		}
 		if nDemote == 0 {
 			c.viol("R3", "expiry demotes in timer callback of "+fn, s.call, "no demotion is reachable from the timer callback: an expired grace period has no effect")
